@@ -490,6 +490,25 @@ func c08Check(cs c08Case) (ds []disc) {
 		if before != after {
 			fail("rejected-upload-changed-state", "answered %s but the stored state changed:\n--- before\n%s--- after\n%s", resp, before, after)
 		}
+		if !cs.IntegrityOff {
+			// the very next uploads are judged on their own bytes, whatever was received of the rejected one
+			next := []byte("the upload that follows a rejected one")
+			sum := md5.Sum(next)
+			wrong := md5.Sum(append(append([]byte("."), payload...), next...))
+			if len(payload) > 0 {
+				// (the digest a server would arrive at that went on hashing where the rejected body stopped)
+				wrong = md5.Sum(append(append([]byte(nil), payload...), next...))
+			}
+			n1 := s3x.Do(st.Handler, &s3x.Req{Method: "PUT", Path: "/bk0/dir/after-the-rejected", Body: next, Header: s3x.H("Content-MD5", base64.StdEncoding.EncodeToString(wrong[:]))})
+			n2 := s3x.Do(st.Handler, &s3x.Req{Method: "PUT", Path: "/bk0/dir/after-the-rejected", Body: next, Header: s3x.H("Content-MD5", base64.StdEncoding.EncodeToString(sum[:]))})
+			if n1.Status != 400 || n1.ErrCode() != "BadDigest" {
+				fail("next-upload-misjudged", "after the rejected upload (%s), a PUT whose Content-MD5 is not that of its %d bytes was answered %s", resp, len(next), n1)
+			}
+			if n2.Status != 200 || n2.Header.Get("ETag") != etagOf(next) {
+				fail("next-upload-misjudged", "after the rejected upload (%s), a PUT with the Content-MD5 of its own %d bytes was answered %s (ETag %s, want %s)", resp, len(next), n2, n2.Header.Get("ETag"), etagOf(next))
+			}
+			del(st, "bk0", "dir/after-the-rejected")
+		}
 		if uploadID != "" && cs.Kind == "part" {
 			// the listing of a pending upload shows numbers, sizes and ETags only; the bytes it
 			// holds become visible by completing it
